@@ -116,6 +116,13 @@ def model (p : Profile) (L : Layout) (op : String) (a : List String) : Option St
       let F := if L.n = 32 then f32 else f64
       pure (toString (fromToFloatHelper F (neg == "1") abs fb ib))
     | _ => none
+  else if op == "cvt_from" || op == "cvt_lossy" then
+    match a with
+    | x :: s2 :: n2 :: f2 :: _ => do
+      let x ← x.toInt?; let n2 ← n2.toNat?; let f2 ← f2.toNat?
+      let D : Layout := ⟨s2 == "1", n2, f2⟩
+      pure (Outcome.render p (oInt (if op == "cvt_from" then Layout.fromLossless L D x else Layout.fromFixed L D x)))
+    | _ => none
   else if op.startsWith "cv_" then
     match a with
     | x :: s2 :: n2 :: f2 :: _ => do
@@ -176,7 +183,15 @@ def model (p : Profile) (L : Layout) (op : String) (a : List String) : Option St
 
 /-- documented answers from exact values only -/
 def spec (p : Profile) (L : Layout) (op : String) (a : List String) : Option String :=
-  if op.startsWith "cv_" then
+  if op == "cvt_from" || op == "cvt_lossy" then
+    -- the infallible conversions: the exact result, always representable, in every profile
+    match a with
+    | x :: s2 :: n2 :: f2 :: _ => do
+      let x ← x.toInt?; let n2 ← n2.toNat?; let f2 ← f2.toNat?
+      let _ := s2
+      pure (toString (Layout.convExact L ⟨s2 == "1", n2, f2⟩ x))
+    | _ => none
+  else if op.startsWith "cv_" then
     match a with
     | x :: s2 :: n2 :: f2 :: _ => do
       let x ← x.toInt?; let n2 ← n2.toNat?; let f2 ← f2.toNat?
